@@ -188,7 +188,10 @@ CellBody(st, n, t, v) ==
          ELSE IF t = "E" THEN term ELSE twoC
     [] k = "bufcell" ->          \* MutArc<Option<BufferObserver>>: q = data
          IF ~nd.f THEN st
-         ELSE IF t = "N" THEN set([nd EXCEPT !.q = Append(@, v)])
+         ELSE IF t = "N" THEN        \* a > 0: buffer_with_count_and_time emits when the count is reached
+           LET q1 == Append(nd.q, v) IN
+           IF nd.a > 0 /\ Len(q1) >= nd.a THEN Push(set([nd EXCEPT !.q = <<>>]), <<CallN(d, L(q1))>>)
+           ELSE set([nd EXCEPT !.q = q1])
          ELSE IF t = "flush" THEN       \* notifier tick / timer tick: emit()
            IF nd.q # <<>> THEN Push(set([nd EXCEPT !.q = <<>>]), <<CallN(d, L(nd.q))>>) ELSE st
          ELSE IF t = "C" THEN
